@@ -227,9 +227,37 @@ def run(fb, rep, tier):
                   'the value %s[i] is written next to a name from another table: %s' % (arr, [render(x) for x in names][:2]))
         vals = [x for x in body.walk() if x.k == 'ArraySubscriptExpr' and arr in render(x) and not render(x).endswith('[i]')]
         rep.check(not vals, 'R14.3', 'saveSettingsFile|%s|value-index' % typ, '%s:%d' % (f.file, loops[0].l), 'value index is the loop index', 'value is read at %s' % [render(x) for x in vals][:2])
+    ok_, wh_, det_ = real_notation(fb)
+    rep.check(ok_, 'R14.3', 'saveSettingsFile|real|notation', wh_, det_, det_)
     seed = [n for n in f.nodes if n.k == 'StringLiteral' and n.v and 'uint:random_seed' in n.v]
     rep.check(bool(seed) and any('random.getSeed()' in render(a) for s in seed for a in [x for x in f.ancestors(s) if x.k == 'CXXOperatorCallExpr'][-1:]), 'R14.3', 'saveSettingsFile|random-seed', w,
               'uint:random_seed = _solver.random.getSeed()', 'the random seed is not written')
+
+
+def real_notation(fb):
+    """saveSettingsFile writes tolerances like 1e-9 and limits like 1e100: when the loop over the real parameters starts, the last notation set on
+    the stream (SPxOut::setScientific / setFixed, statements of the function body in order) must be the scientific one - in fixed notation
+    with 8 decimals a tolerance of 1e-9 is written as 0.00000000 and read back as zero."""
+    f = fb.one(C + '::saveSettingsFile')
+    loops = [n for n in f.nodes if n.k == 'ForStmt' and n.kid('body') is not None and '_realParamValues' in render(n.kid('body'))]
+    if len(loops) != 1 or f.body is None:
+        raise AnalysisBroken('saveSettingsFile: the loop over the real parameters was not found')
+    last = None
+    for st in f.body.kids:
+        if st.i == loops[0].i:
+            break
+        for x in st.walk():
+            if x.is_call() and x.short in ('setScientific', 'setFixed'):
+                last = x
+            if x.k == 'DeclRefExpr' and x.n and x.n.split('::')[-1] in ('scientific', 'fixed'):
+                last = x
+    wh = '%s:%d' % (f.file, loops[0].l)
+    if last is None:
+        return False, wh, 'no notation is set before the real parameters are written: the stream default drops small values'
+    nm = last.short if last.is_call() else last.n.split('::')[-1]
+    if nm in ('setScientific', 'scientific'):
+        return True, wh, 'scientific notation (line %d) is in force when the real values are written' % last.l
+    return False, wh, 'the last notation set before the real parameters are written is %s (line %d): a tolerance such as 1e-9 is written as 0.00000000 and re-read as 0' % (nm, last.l)
 
 
 def accumulating_buffers(fb):
